@@ -2,7 +2,7 @@
    correspondence driver.  Only ExtrOcamlBasic: N, positive, nat keep their
    inductive representation; no Extract Constant / Extract Inductive of ours. *)
 From Coq Require Import Extraction ExtrOcamlBasic.
-From BV Require Import Word ArenaModel ArenaPolicy ArenaSpec ArenaInv.
+From BV Require Import Word ArenaModel ArenaPolicy ArenaSpec ArenaInv VecModel.
 Extraction Language OCaml.
 Extraction "model.ml"
   W N.add N.mul N.div N.modulo N.sub N.eqb N.leb N.ltb N.of_nat N.to_nat
@@ -10,4 +10,7 @@ Extraction "model.ml"
   q_allocated_bytes q_allocated_bytes_incl q_chunk_capacity q_iter_chunks held
   cur_ptr cur_foot cur_start
   sp_accounting apply_frees sp_block_ok sp_aligned sp_limit_ok sp_iter_ok sp_reset_ok
-  sp_stores_owned footer_of lay_ok layout_ok.
+  sp_stores_owned footer_of lay_ok layout_ok
+  mkVec mkEcfg v_cap contents vwith_capacity push pop insert remove swap_remove truncate truncate_state
+  try_reserve reserve shrink_to_fit drain drain_filter retain dedup_by dedup_state resize
+  extend_copy extend_iter extend_slices_copy split_off drop_vec.
